@@ -1,3 +1,7 @@
 import page_common
 A = page_common.pairs()
 PAIRS = [A[k] for k in ("page_malloc", "free_block_local", "set_in_full", "set_has_aligned", "unfull", "to_full")] + page_common.malloc_generic_pairs() + page_common.extend_pairs()
+# live blocks survive the deletion of their heap: every page queue (including the full queue) is absorbed
+import importlib.util as _u, os as _o
+_s = _u.spec_from_file_location("plan_C10_for_C01", _o.path.join(_o.path.dirname(__file__), "C10.py")); _m = _u.module_from_spec(_s); _s.loader.exec_module(_m)
+PAIRS += [p for p in _m.PAIRS if p["name"] in ("absorb", "delete")]
